@@ -16,11 +16,14 @@ For every input sequence of the ports (unbounded length, any traffic) on the com
  * `refresh_accounting`          after t cycles exactly  postponing·⌊t / (postponing·tREFI)⌋ − (what the running episode still
                                  owes) AUTO REFRESH commands have been taken from the refresher;
  * `refresh_rate`                hence  postponing·⌊t/(postponing·tREFI)⌋ − postponing ≤ #REF(t) ≤ postponing·⌊t/(postponing·tREFI)⌋:
-                                 never more than `postponing` refreshes are owed, the long-run rate is exactly one per tREFI,
-                                 and the k-th refresh is issued before cycle (⌈k/postponing⌉ + 1)·postponing·tREFI.
+                                 never more than `postponing` refreshes are owed, the long-run rate is exactly one per tREFI;
+ * `refresh_deadline`            **the k-th AUTO REFRESH (k ≥ 1) has been issued by cycle (k + postponing)·tREFI + lat0 +
+                                 postponing·(tRP+tRFC+1)**, with the fixed service latency lat0 = psiMax + 2 + (tRP+tZQCS+1 if ZQCS)
+                                 (`refresh_deadline_qr`: refresh r+1 of the (q+1)-th request at most lat0 + (r+1)·(tRP+tRFC+1)
+                                 cycles after that request) - the statement of the property, with psiMax in place of the measured D.
 Each AUTO REFRESH is preceded by its precharge-all (`C04.ref_preceded_by_prea`, C02) and reaches the DFI pins one cycle
 later on phase 0 (`C02.controller_dfi_legal`); tREFI in cycles never exceeds the datasheet interval (C16).
-The sharper per-refresh deadline (k + postponing)·tREFI + D of the property text is what the check measures on traces.
+The check measures the same deadline on traces with the tighter constant D(cfg) in place of psiMax.
 -/
 import LitedramVerif.Proofs.RefreshRate
 import LitedramVerif.Props.C04_Controller
@@ -89,6 +92,97 @@ theorem refresh_rate (c : Controller.Cfg) (hwf : CtlInv.WF c) (hb : Budget c) (h
     refCount c (init c) inputs ≤ c.rf.postponing * (inputs.length / (c.rf.postponing * c.rf.tREFI)) := by
   obtain ⟨h1, h2⟩ := refresh_accounting c hwf hb hwr inputs hins
   constructor <;> omega
+
+/-- fixed service latency of the deadline theorem: the worst-case wait for the bus and a ZQ calibration -/
+def lat0 (c : Controller.Cfg) : Nat := psiMax c + 2 + zqLen c.rf
+
+/-- **refresh deadline**, episode form: refresh number r+1 of the (q+1)-th request is issued at most
+`lat0 + (r+1)·(tRP+tRFC+1)` cycles after that request (which is raised at cycle (q+1)·P·tREFI) -/
+theorem refresh_deadline_qr (c : Controller.Cfg) (hwf : CtlInv.WF c) (hb : Budget c) (hwr : c.rf.withRefresh = true)
+    (inputs : List (Array BankIn)) (hins : ∀ ins ∈ inputs, InsOk c ins) (q r : Nat) (hr : r < c.rf.postponing)
+    (ht : (q + 1) * (c.rf.postponing * c.rf.tREFI) + lat0 c + (r + 1) * M c.rf ≤ inputs.length) :
+    q * c.rf.postponing + r + 1 ≤ refCount c (init c) inputs := by
+  have hP := hwf.rf.post
+  have hT : 1 ≤ c.rf.tREFI := by have := hwf.rf.phantom; omega
+  have h0 : Acct c (init c) 0 0 0 := by
+    refine ⟨by simp [owed, init, Refresher.init], ?_, by simp [owed, init, Refresher.init]⟩
+    simp only [Tr, init, Refresher.init]
+    have : c.rf.postponing = (c.rf.postponing - 1) + 1 := by omega
+    conv => rhs; rw [Nat.zero_add, Nat.one_mul, this, Nat.add_mul, Nat.one_mul]
+    omega
+  obtain ⟨q', hq'⟩ := acct_run c hwf hb hwr inputs _ _ _ 0 0 0 (nl_init c hwf) h0 hins
+  simp only [Nat.zero_add] at hq'
+  obtain ⟨g, w, hnl⟩ := nl_reachable c hwf hb inputs hins
+  rw [runCtl_eq] at hnl
+  generalize CtlLive.runCtl c (init c) inputs = s at *
+  obtain ⟨hcnt, htime, hle⟩ := hq'
+  have hmain := hnl.main
+  have hTr1 : 1 ≤ Tr c.rf s.rf := by simp only [Tr]; omega
+  unfold Budget at hb
+  simp only [lat0] at ht
+  generalize hPT : c.rf.postponing * c.rf.tREFI = PT at *
+  generalize hPM : c.rf.postponing * M c.rf = PM at *
+  have hM1 : 1 ≤ M c.rf := by simp only [M]; omega
+  -- q' ≥ q + 1
+  have hq1 : q + 1 ≤ q' := by
+    apply Nat.le_of_not_lt
+    intro hlt
+    have : q' + 1 ≤ q + 1 := by omega
+    have := Nat.mul_le_mul_right PT this
+    omega
+  by_cases hq2 : q + 2 ≤ q'
+  · have h1 := Nat.mul_le_mul_left c.rf.postponing hq2
+    rw [Nat.mul_add] at h1
+    have h2 : q * c.rf.postponing = c.rf.postponing * q := Nat.mul_comm _ _
+    omega
+  · have hqe : q' = q + 1 := by omega
+    subst hqe
+    rw [Nat.mul_add, Nat.mul_one] at hcnt
+    have h2 : q * c.rf.postponing = c.rf.postponing * q := Nat.mul_comm _ _
+    have htime' : (q + 1 + 1) * PT = (q + 1) * PT + PT := by rw [Nat.add_mul (q + 1) 1, Nat.one_mul]
+    by_cases hidle : s.rf.fsm = .idle
+    · have ho : owed c.rf s.rf = 0 := by simp [owed, hidle]
+      cases hq : s.rf.reqO
+      · simp only [hq, Bool.false_eq_true, if_false] at hcnt; omega
+      · have := hnl.req hq
+        rw [hPT] at this; omega
+    · have hq : s.rf.reqO = false := by
+        cases hq : s.rf.reqO
+        · rfl
+        · exact absurd (hnl.lost hq) hidle
+      simp only [hq, Bool.false_eq_true, if_false] at hcnt
+      simp only [hidle, if_false, slack, hPT, hPM] at hmain
+      by_cases hor : owed c.rf s.rf + r + 1 ≤ c.rf.postponing
+      · omega
+      · exfalso
+        have ho1 : 1 ≤ owed c.rf s.rf := by omega
+        have hge := epi_ge_owed c hwf s w ho1
+        have h3 : (c.rf.postponing - r - 1) * M c.rf ≤ (owed c.rf s.rf - 1) * M c.rf := Nat.mul_le_mul_right _ (by omega)
+        have h4 : (c.rf.postponing - r - 1) * M c.rf + (r + 1) * M c.rf = PM := by
+          rw [← Nat.add_mul, ← hPM]; congr 1; omega
+        omega
+
+/-- **refresh deadline** in the form of the property: the k-th AUTO REFRESH (k ≥ 1) has been issued by cycle
+`(k + postponing)·tREFI + lat0 + postponing·(tRP+tRFC+1)` -/
+theorem refresh_deadline (c : Controller.Cfg) (hwf : CtlInv.WF c) (hb : Budget c) (hwr : c.rf.withRefresh = true)
+    (inputs : List (Array BankIn)) (hins : ∀ ins ∈ inputs, InsOk c ins) (k : Nat) (hk : 1 ≤ k)
+    (ht : (k + c.rf.postponing) * c.rf.tREFI + lat0 c + c.rf.postponing * M c.rf ≤ inputs.length) :
+    k ≤ refCount c (init c) inputs := by
+  have hP := hwf.rf.post
+  -- k − 1 = q·P + r
+  have hdm := Nat.div_add_mod (k - 1) c.rf.postponing
+  have hr : (k - 1) % c.rf.postponing < c.rf.postponing := Nat.mod_lt _ hP
+  generalize (k - 1) / c.rf.postponing = q at *
+  generalize (k - 1) % c.rf.postponing = r at *
+  have hkq : k = q * c.rf.postponing + r + 1 := by rw [Nat.mul_comm]; omega
+  have := refresh_deadline_qr c hwf hb hwr inputs hins q r hr (by
+    have h1 : (q + 1) * (c.rf.postponing * c.rf.tREFI) ≤ (k + c.rf.postponing) * c.rf.tREFI := by
+      rw [← Nat.mul_assoc]
+      apply Nat.mul_le_mul_right
+      rw [Nat.add_mul, Nat.one_mul]; omega
+    have h2 : (r + 1) * M c.rf ≤ c.rf.postponing * M c.rf := Nat.mul_le_mul_right _ (by omega)
+    omega)
+  omega
 
 /-! ### non-vacuity: `C02.cfgC` with tREFI = 130 meets the hypotheses; the request of cycle 260 is being served at cycle 278
 (one AUTO REFRESH issued, one owed) -/
